@@ -13,7 +13,6 @@ import Gen.Guards.FillersOK
 import Gen.Guards.LabelsOK
 import Gen.Guards.LeafOk
 import Gen.Guards.TextLoop
-import Gen.Guards.TextStable
 import Gen.Guards.TextStableC
 import Gen.Guards.WrapOK
 namespace PM.Family.C04
@@ -29,6 +28,18 @@ theorem replace_undo_transitive (S : Schema) (hS : S ∈ familySchemas) (doc doc
     (ha : alignedAt doc'.kids f = true ∧ alignedAt doc'.kids (f + sl.size.toNat) = true) :
     S.apply inv doc' = .ok doc :=
   PM.C04.replace_undo_transitive S doc doc' f t sl b inv (family_compatTrans _ hS) hd hn hsn h1 hi ha
+
+/-- `PM.C04.replaceAround_undo_bmp` with its schema guards discharged for the bundled schema family -/
+theorem replaceAround_undo_bmp (S : Schema) (hS : S ∈ familySchemas) (d d' : Node) (f t gf gt : Nat)
+    (sl : Slice) (ins : Nat) (b : Bool) (hv : S.checkNode d = true) (hn : fnorm d.kids = true)
+    (hsn : fnorm sl.content = true) (hwf : sl.wf = true) (hgo : f ≤ gf ∧ gf ≤ gt ∧ gt ≤ t)
+    (h : S.apply (.replaceAround f t gf gt sl ins b) d = .ok d')
+    (hst : b = true → contentBetween d' f (f + ins) = some false ∧
+      contentBetween d' (f + ins + (gt - gf)) (f + sl.size.toNat + (gt - gf)) = some false)
+    (hb : bmpDoc d = true) (hb' : bmpDoc d' = true) :
+    ∃ inv, S.invert (.replaceAround f t gf gt sl ins b) d = .ok inv ∧ S.apply inv d' = .ok d :=
+  PM.C04.replaceAround_undo_bmp S (family_compatTrans _ hS) d d' f t gf gt sl ins b hv hn hsn hwf hgo h hst hb
+    hb'
 
 /-- `PM.C04.removeMarkStep_undo` with its schema guards discharged for the bundled schema family -/
 theorem removeMarkStep_undo (S : Schema) (hS : S ∈ familySchemas) (doc doc' : Node) (f t : Nat) (m : Mark)
@@ -194,7 +205,7 @@ theorem replaceOp_residual (S : Schema) (hS : S ∈ domFamilySchemas) (tr tr1 : 
   PM.C04.replaceOp_residual S (family_det _ (domFamily_sub _ hS)) (family_fillersOK _ (domFamily_sub _ hS))
     (family_wrapOK _ (domFamily_sub _ hS)) (family_labelsOK _ (domFamily_sub _ hS))
     (family_leafOk _ (domFamily_sub _ hS)) (family_textStableC _ (domFamily_sub _ hS))
-    (family_closable _ (domFamily_sub _ hS)) (family_textStable _ hS) tr tr1 hlen hI f t sl h hres
+    (family_closable _ (domFamily_sub _ hS)) tr tr1 hlen hI f t sl h hres
 
 /-- `PM.C04.editHistory_undo_bmp` with its schema guards discharged for the bundled schema family -/
 theorem editHistory_undo_bmp (S : Schema) (hS : S ∈ domFamilySchemas) (doc : Node) (ops : List Op) (tr' : Tr)
@@ -206,8 +217,8 @@ theorem editHistory_undo_bmp (S : Schema) (hS : S ∈ domFamilySchemas) (doc : N
     (textLoop_of_B _ (family_textLoop _ (domFamily_sub _ hS))) (family_det _ (domFamily_sub _ hS))
     (family_fillersOK _ (domFamily_sub _ hS)) (family_wrapOK _ (domFamily_sub _ hS))
     (family_labelsOK _ (domFamily_sub _ hS)) (family_leafOk _ (domFamily_sub _ hS))
-    (family_textStableC _ (domFamily_sub _ hS)) (family_closable _ (domFamily_sub _ hS))
-    (family_textStable _ hS) doc ops tr' hd hn hb hall h hres
+    (family_textStableC _ (domFamily_sub _ hS)) (family_closable _ (domFamily_sub _ hS)) doc ops tr' hd hn hb
+    hall h hres
 
 /-- `PM.C04.editResidual_of'` with its schema guards discharged for the bundled schema family -/
 theorem editResidual_of' (S : Schema) (hS : S ∈ domFamilySchemas) (op : Op) (tr tr1 : Tr)
@@ -217,7 +228,7 @@ theorem editResidual_of' (S : Schema) (hS : S ∈ domFamilySchemas) (op : Op) (t
   PM.C04.editResidual_of' S (family_det _ (domFamily_sub _ hS)) (family_fillersOK _ (domFamily_sub _ hS))
     (family_wrapOK _ (domFamily_sub _ hS)) (family_labelsOK _ (domFamily_sub _ hS))
     (family_leafOk _ (domFamily_sub _ hS)) (family_textStableC _ (domFamily_sub _ hS))
-    (family_closable _ (domFamily_sub _ hS)) (family_textStable _ hS) op tr tr1 hlen hI hb h hres
+    (family_closable _ (domFamily_sub _ hS)) op tr tr1 hlen hI hb h hres
 
 /-- `PM.C04.editHistory_undo_bmp'` with its schema guards discharged for the bundled schema family -/
 theorem editHistory_undo_bmp' (S : Schema) (hS : S ∈ domFamilySchemas) (doc : Node) (ops : List Op) (tr' : Tr)
@@ -229,15 +240,8 @@ theorem editHistory_undo_bmp' (S : Schema) (hS : S ∈ domFamilySchemas) (doc : 
     (textLoop_of_B _ (family_textLoop _ (domFamily_sub _ hS))) (family_det _ (domFamily_sub _ hS))
     (family_fillersOK _ (domFamily_sub _ hS)) (family_wrapOK _ (domFamily_sub _ hS))
     (family_labelsOK _ (domFamily_sub _ hS)) (family_leafOk _ (domFamily_sub _ hS))
-    (family_textStableC _ (domFamily_sub _ hS)) (family_closable _ (domFamily_sub _ hS))
-    (family_textStable _ hS) doc ops tr' hd hn hb hall h hres
-
-/-- `PM.C04.fit_around_gapFitsBack` with its schema guards discharged for the bundled schema family -/
-theorem fit_around_gapFitsBack (S : Schema) (hS : S ∈ familySchemas) (doc doc' : Node) (f t : Nat) (req : Slice)
-    (hd : S.checkNode doc = true) (hn : fnorm doc.kids = true) (hb : bmpDoc doc = true) (hft : f ≤ t) (s : Step)
-    (hr : replaceStep S doc f t req = .ok (some s)) (ha : S.apply s doc = .ok doc') :
-    AroundFitsBack S s doc :=
-  PM.C04.fit_around_gapFitsBack S (textLoop_of_B _ (family_textLoop _ hS)) doc doc' f t req hd hn hb hft s hr ha
+    (family_textStableC _ (domFamily_sub _ hS)) (family_closable _ (domFamily_sub _ hS)) doc ops tr' hd hn hb
+    hall h hres
 
 /-- `PM.C04.editResidual'_of_hyps` with its schema guards discharged for the bundled schema family -/
 theorem editResidual'_of_hyps (S : Schema) (hS : S ∈ familySchemas) (op : Op) (tr tr1 : Tr)
@@ -256,8 +260,8 @@ theorem editHistory_undo (S : Schema) (hS : S ∈ domFamilySchemas) (doc : Node)
     (textLoop_of_B _ (family_textLoop _ (domFamily_sub _ hS))) (family_det _ (domFamily_sub _ hS))
     (family_fillersOK _ (domFamily_sub _ hS)) (family_wrapOK _ (domFamily_sub _ hS))
     (family_labelsOK _ (domFamily_sub _ hS)) (family_leafOk _ (domFamily_sub _ hS))
-    (family_textStableC _ (domFamily_sub _ hS)) (family_closable _ (domFamily_sub _ hS))
-    (family_textStable _ hS) doc ops tr' hd hn hb hall h hres
+    (family_textStableC _ (domFamily_sub _ hS)) (family_closable _ (domFamily_sub _ hS)) doc ops tr' hd hn hb
+    hall h hres
 
 /-- `PM.C04.deleteOp_residual` with its schema guards discharged for the bundled schema family -/
 theorem deleteOp_residual (S : Schema) (hS : S ∈ domFamilySchemas) (tr tr1 : Tr)
@@ -269,8 +273,8 @@ theorem deleteOp_residual (S : Schema) (hS : S ∈ domFamilySchemas) (tr tr1 : T
     (textLoop_of_B _ (family_textLoop _ (domFamily_sub _ hS))) (family_det _ (domFamily_sub _ hS))
     (family_fillersOK _ (domFamily_sub _ hS)) (family_wrapOK _ (domFamily_sub _ hS))
     (family_labelsOK _ (domFamily_sub _ hS)) (family_leafOk _ (domFamily_sub _ hS))
-    (family_textStableC _ (domFamily_sub _ hS)) (family_closable _ (domFamily_sub _ hS))
-    (family_textStable _ hS) tr tr1 hlen hml hI hb hattrs f t hft h
+    (family_textStableC _ (domFamily_sub _ hS)) (family_closable _ (domFamily_sub _ hS)) tr tr1 hlen hml hI hb
+    hattrs f t hft h
 
 /-- `PM.C04.insertInlineOp_residual` with its schema guards discharged for the bundled schema family -/
 theorem insertInlineOp_residual (S : Schema) (hS : S ∈ domFamilySchemas) (tr tr1 : Tr)
@@ -284,8 +288,8 @@ theorem insertInlineOp_residual (S : Schema) (hS : S ∈ domFamilySchemas) (tr t
     (textLoop_of_B _ (family_textLoop _ (domFamily_sub _ hS))) (family_det _ (domFamily_sub _ hS))
     (family_fillersOK _ (domFamily_sub _ hS)) (family_wrapOK _ (domFamily_sub _ hS))
     (family_labelsOK _ (domFamily_sub _ hS)) (family_leafOk _ (domFamily_sub _ hS))
-    (family_textStableC _ (domFamily_sub _ hS)) (family_closable _ (domFamily_sub _ hS))
-    (family_textStable _ hS) tr tr1 hlen hml hI hb hattrs f t hft sl hsl hslv hsb h hnorm
+    (family_textStableC _ (domFamily_sub _ hS)) (family_closable _ (domFamily_sub _ hS)) tr tr1 hlen hml hI hb
+    hattrs f t hft sl hsl hslv hsb h hnorm
 
 /-- `PM.C04.editHistory_undo'` with its schema guards discharged for the bundled schema family -/
 theorem editHistory_undo' (S : Schema) (hS : S ∈ domFamilySchemas) (doc : Node) (ops : List Op) (tr' : Tr)
@@ -297,8 +301,8 @@ theorem editHistory_undo' (S : Schema) (hS : S ∈ domFamilySchemas) (doc : Node
     (textLoop_of_B _ (family_textLoop _ (domFamily_sub _ hS))) (family_det _ (domFamily_sub _ hS))
     (family_fillersOK _ (domFamily_sub _ hS)) (family_wrapOK _ (domFamily_sub _ hS))
     (family_labelsOK _ (domFamily_sub _ hS)) (family_leafOk _ (domFamily_sub _ hS))
-    (family_textStableC _ (domFamily_sub _ hS)) (family_closable _ (domFamily_sub _ hS))
-    (family_textStable _ hS) doc ops tr' hd hn hb hall h hres
+    (family_textStableC _ (domFamily_sub _ hS)) (family_closable _ (domFamily_sub _ hS)) doc ops tr' hd hn hb
+    hall h hres
 
 /-- `PM.C04.insertInlineOp_residual'` with its schema guards discharged for the bundled schema family -/
 theorem insertInlineOp_residual' (S : Schema) (hS : S ∈ domFamilySchemas) (tr tr1 : Tr)
@@ -311,7 +315,7 @@ theorem insertInlineOp_residual' (S : Schema) (hS : S ∈ domFamilySchemas) (tr 
     (textLoop_of_B _ (family_textLoop _ (domFamily_sub _ hS))) (family_det _ (domFamily_sub _ hS))
     (family_fillersOK _ (domFamily_sub _ hS)) (family_wrapOK _ (domFamily_sub _ hS))
     (family_labelsOK _ (domFamily_sub _ hS)) (family_leafOk _ (domFamily_sub _ hS))
-    (family_textStableC _ (domFamily_sub _ hS)) (family_closable _ (domFamily_sub _ hS))
-    (family_textStable _ hS) tr tr1 hlen hml hI hb hattrs f t hft sl hsl hslv hsb hsn h
+    (family_textStableC _ (domFamily_sub _ hS)) (family_closable _ (domFamily_sub _ hS)) tr tr1 hlen hml hI hb
+    hattrs f t hft sl hsl hslv hsb hsn h
 
 end PM.Family.C04
